@@ -175,6 +175,7 @@ def expand_grammar(g):
         tname = n[1]
         args = [ex(a, L) for a in n[2]]
         kwargs = [(kw, ex(a, L)) for kw, a in n[3]]
+        orig = n
         n = ('call', tname, args, kwargs)
         r = templates.get(tname)
         if r is None:
@@ -182,6 +183,12 @@ def expand_grammar(g):
         if tname in recursive:
             return n
         pairs = bind_args(r, n)
+        # An argument that was a CALL and has been expanded to bare inline Python is still a parsing
+        # expression (it is parsed where the body uses the parameter), not a value argument.
+        was_value = {p_: a_[0] == 'py' for p_, a_ in bind_args(r, orig)}
+        # Such a call is kept as it is: let-binding the Python text would turn it into a value.
+        if any(a_[0] == 'py' and not was_value.get(p_, True) for p_, a_ in pairs):
+            return ('call', tname, list(orig[2]), list(orig[3]))
         if r[0] == 'class':
             if any(free_locals(a, L) for _, a in pairs):
                 return n          # needs call-site locals: keep the call
